@@ -87,11 +87,6 @@ def split(data: bytes) -> list[list[Pair]]:
     return maps
 
 
-def pair_sets(maps: list[list[Pair]]) -> list[frozenset[tuple[bytes, bytes]]]:
-    """Order-free view: per map, the set of (key, value)."""
-    return [frozenset((p.key, p.value) for p in m) for m in maps]
-
-
 def assemble(maps: list[list[tuple[bytes, bytes]]], magic: bool = True) -> bytes:
     """The inverse, with minimal compact sizes: a writer for re-ordered maps."""
     out = bytearray(MAGIC if magic else b"")
